@@ -499,3 +499,24 @@ func Main(m *testing.M) {
 	}
 	os.Exit(code)
 }
+
+var fuzzFailN int
+
+// FuzzCheck runs one case of a native fuzz target through the same path as a generated case
+// (panics recovered, After invariants evaluated). A failure is written as a replay file into
+// $VERIF_FUZZ_OUT (the driver copies it under replays/<ID>/) and fails the fuzz run. A discarded
+// case is skipped.
+func FuzzCheck[C any](t *testing.T, prop, sub string, f func(*Ctx, C) error, c C) {
+	ctx := &Ctx{}
+	err := safeCheck(f, ctx, c)
+	if err == nil {
+		return
+	}
+	if dir := os.Getenv("VERIF_FUZZ_OUT"); dir != "" {
+		fuzzFailN++
+		cb, _ := json.Marshal(c)
+		b, _ := json.MarshalIndent(ReplayFile{Property: prop, Sub: sub, Error: err.Error(), Case: cb}, "", " ")
+		_ = os.WriteFile(filepath.Join(dir, fmt.Sprintf("fuzzfail-%d-%d.json", os.Getpid(), fuzzFailN)), b, 0o644)
+	}
+	t.Fatalf("%v", err)
+}
